@@ -173,7 +173,7 @@ CHECKS = {
         "budget_s": {"quick": 280, "thorough": 2400},
         "hard_timeout_s": {"quick": 900, "thorough": 3600},
         "meta": {
-            "rule": "-race build of the harness; bounded-exhaustive enumeration of two-goroutine programs: every unordered pair (incl. an operation with itself) of 51 public Machine operations (mutations, checks, getters, When*/NewStateCtx subscriptions, handler / tracer binding, logger configuration, Log, Export, String/Inspect, queue getters, Eval, OnChange, ParseStates, SetSchema, Dispose), each operation 3 times, x 5 machine contexts (idle; a third goroutine running transitions with handlers and an Auto state; the same with a final handler that panics; a third goroutine adding and removing errors; cold = schema just replaced, lazily built copies absent) plus every pair of 20 NetworkMachine readers against a goroutine feeding clock updates (NetMachInternal.UpdateClock): about 6800 programs; oracle: the Go race detector's reports, read from the race log after every program and attributed to it; signature = first repository frame of both conflicting accesses",
+            "rule": "-race build of the harness; bounded-exhaustive enumeration of two-goroutine programs: every unordered pair (incl. an operation with itself) of 51 public Machine operations (mutations, checks, getters, When*/NewStateCtx subscriptions, handler / tracer binding, logger configuration, Log, Export, String/Inspect, queue getters, Eval, OnChange, ParseStates, SetSchema, Dispose), each operation 3 times, x 5 machine contexts (idle; a third goroutine running transitions with handlers and an Auto state; the same with a final handler that panics; a third goroutine adding and removing errors; cold = schema just replaced, lazily built copies absent) plus every pair of 20 NetworkMachine readers against a goroutine feeding clock updates (NetMachInternal.UpdateClock): about 6800 programs (thorough: plus every unordered triple of 14 core operations, three goroutines, in every context); oracle: the Go race detector's reports, read from the race log after every program and attributed to it; signature = first repository frame of both conflicting accesses",
             "assumptions": ["the race detector is a happens-before analysis of the executed program: a report does not need the two accesses to overlap in this run, but a race on a path the run did not take is not seen (each operation is repeated and run in 5 contexts to widen control flow)", "programs of more than two API goroutines are not enumerated (every data race involves two accesses; the third goroutine provides the transition context)", "programs that do not finish within 20s are counted (programs_not_finished), not judged"],
         },
     },
@@ -185,7 +185,7 @@ CHECKS = {
         "budget_s": {"quick": 240, "thorough": 2400},
         "hard_timeout_s": {"quick": 900, "thorough": 3600},
         "meta": {
-            "rule": "the real node.Supervisor with its whole fork pipeline (bootstrap RPC servers, rpc.Mux, per-worker rpc.Client) and real node.Workers created by the TestFork seam, all over the in-memory network and inside one testing/synctest bubble per execution; pool settings (Min,Max,Warm) in {(1,1,0),(1,2,0),(2,2,1),(2,3,1),(0,2,2),(3,2,1)} (+4 in thorough) x every event history of depth <= 3 (quick: every 3rd of depth 3) over 13 events: time (2s / 61s = a Heartbeat), cut of a worker's links, injected worker errors, a worker dying, a worker turning not-Ready / Ready, a worker doing work, the next 2 forks failing, CheckPool, Heartbeat; a tracer on the supervisor samples len(workers) / readyWorkers() at every TransitionEnd (in-package accessor): tracked <= Max, no fork accepted at Max, PoolReady only activated with >= min ready and only withdrawn with < min ready, <=1 member of PoolStatus / PoolNormalized active; a tracer on every worker: <=1 member of WorkStatus; every worker seen with more than WorkerErrKill remembered errors had TestKill called by the end",
+            "rule": "the real node.Supervisor with its whole fork pipeline (bootstrap RPC servers, rpc.Mux, per-worker rpc.Client) and real node.Workers created by the TestFork seam, all over the in-memory network and inside one testing/synctest bubble per execution; pool settings (Min,Max,Warm) in {(1,1,0),(1,2,0),(2,2,1),(2,3,1),(0,2,2),(3,2,1)} (+4 in thorough) x every event history of depth <= 3 (thorough: 4) over 13 events: time (2s / 61s = a Heartbeat), cut of a worker's links, injected worker errors, a worker dying, a worker turning not-Ready / Ready, a worker doing work, the next 2 forks failing, CheckPool, Heartbeat; a tracer on the supervisor samples len(workers) / readyWorkers() at every TransitionEnd (in-package accessor): tracked <= Max, no fork accepted at Max, PoolReady only activated with >= min ready and only withdrawn with < min ready, <=1 member of PoolStatus / PoolNormalized active; a tracer on every worker: <=1 member of WorkStatus; every worker seen with more than WorkerErrKill remembered errors had TestKill called by the end",
             "assumptions": ["pool settings are fixed before Start (SetPool on a running pool is a reconfiguration, not covered)", "WorkerErrKill=1 so that two injected errors cross the limit", "TestKill stops the worker and reports WorkerKilled (what the real kill path does)", "go-cache (error TTL caches) and rpc.Mux.accept carry a verif-only hook each so that a bubble can finish (janitor goroutines end on request; no spinning on a closed listener)", "goroutines left blocked after the tear-down are counted (leaked_goroutines_runs), not judged"],
         },
     },
